@@ -1052,7 +1052,18 @@ def input_handling_total(chk, main, ex):
             else:
                 yield st, [st]
 
-    for st, parts in simple(ex.body):
+    # the raw-text phase ends with the statement that parses the inputs
+    # (vy_eval / str over them); afterwards `inputs` holds Vyxal values and
+    # the program-dependent rule above applies
+    body = list(ex.body)
+    for i, st in enumerate(body):
+        if any(isinstance(c, ast.Call) and (dotted(c.func) or "").split(
+                ".")[-1] == "vy_eval" for c in ast.walk(st)) and any(
+                isinstance(m, ast.Name) and m.id == "inputs"
+                for m in ast.walk(st)):
+            body = body[:i + 1]
+            break
+    for st, parts in simple(body):
         if not any(isinstance(m, ast.Name) and m.id == "inputs"
                    for p in parts for m in ast.walk(p)):
             continue
